@@ -39,3 +39,36 @@ pub proof fn lemma_rle_mono(items: Seq<(TreeCodeType, u8)>, a: int, b: int)
 {
     if a < b { lemma_rle_mono(items, a, b - 1); lemma_rle_total_prefix(items, b - 1); lemma_rle_total_nonneg(seq![items[b - 1]]); }
 }
+
+// ---- header-level facts shared by the reader (U13), the writer (U15) and the tree predictor (U22) ----
+/// what the tree predictor needs to know about the header it corrects (established by the reader: henc_wf)
+pub open spec fn henc_tp(h: HuffmanOriginalEncoding) -> bool {
+    &&& 257 <= h.num_literals <= 288 && 1 <= h.num_dist <= 32 && 4 <= h.num_code_lengths <= 19
+    &&& forall|i: int| 0 <= i < 19 ==> #[trigger] h.code_lengths[i] <= 7
+    &&& forall|i: int| 0 <= i < h.lengths@.len() ==> rle_ok(#[trigger] h.lengths@[i])
+    &&& rle_total(h.lengths@) == h.num_literals + h.num_dist
+    &&& h.lengths@.len() <= 320
+}
+
+pub open spec fn henc_same(a: HuffmanOriginalEncoding, b: HuffmanOriginalEncoding) -> bool {
+    a.lengths@ == b.lengths@ && a.code_lengths@ == b.code_lengths@ && a.num_literals == b.num_literals && a.num_dist == b.num_dist
+        && a.num_code_lengths == b.num_code_lengths
+}
+/// entries of the code-length code that the header does not transmit are zero (the reader starts from zeros)
+pub open spec fn henc_tail_zero(h: HuffmanOriginalEncoding) -> bool {
+    forall|i: int| h.num_code_lengths <= i < 19 ==> h.code_lengths[#[trigger] TREE_CODE_ORDER_TABLE[i] as int] == 0
+}
+
+/// henc_tp follows from the reader's well-formedness: at most 320 items because every item covers at least one length
+pub proof fn lemma_rle_len_le_total(items: Seq<(TreeCodeType, u8)>)
+    requires forall|i: int| 0 <= i < items.len() ==> rle_ok(#[trigger] items[i]),
+    ensures items.len() <= rle_total(items),
+    decreases items.len()
+{
+    if items.len() > 0 {
+        let pre = items.drop_last();
+        assert forall|i: int| 0 <= i < pre.len() implies rle_ok(#[trigger] pre[i]) by { assert(pre[i] == items[i]); }
+        lemma_rle_len_le_total(pre);
+        assert(rle_ok(items[items.len() - 1]));
+    }
+}
